@@ -240,10 +240,11 @@ impl<K: KeyT, V: ValT> MapWorld<K, V> {
         // findable (lawful hash/eq only)
         if self.ctx.functional() {
             for (e, _) in &act {
-                let probe = K::view(e.kid);
+                let probe_h = K::view(e.kid);
+                let probe: &K::View = &*probe_h;
                 let mref = self.slots[si].map.as_ref().unwrap();
                 let nop = Op::new(Kd::Nop);
-                let got = match self.ctx.call(&nop, || mref.get(&probe).map(|v| v.serial())) {
+                let got = match self.ctx.call(&nop, || mref.get(probe).map(|v| v.serial())) {
                     Out::Ok(g) => g,
                     _ => vio!(self, "postpanic/get", "lookup after a {} panic panicked", class.name()),
                 };
@@ -382,8 +383,9 @@ impl<K: KeyT, V: ValT> MapWorld<K, V> {
             let mref = self.slots[si].map.as_ref().unwrap();
             // alternate between the key type itself and its borrowed view
             let got = if n % 2 == 0 {
-                let probe = K::view(kid);
-                self.ctx.call(&nop, || mref.get_key_value(&probe).map(|(k, v)| (k.serial(), v.val(), v.serial())))
+                let probe_h = K::view(kid);
+                let probe: &K::View = &*probe_h;
+                self.ctx.call(&nop, || mref.get_key_value(probe).map(|(k, v)| (k.serial(), v.val(), v.serial())))
             } else {
                 let probe = K::make(kid);
                 let r = self.ctx.call(&nop, || mref.get_key_value(&probe).map(|(k, v)| (k.serial(), v.val(), v.serial())));
@@ -402,9 +404,10 @@ impl<K: KeyT, V: ValT> MapWorld<K, V> {
             if self.slots[si].model.pos(kid).is_some() {
                 continue;
             }
-            let probe = K::view(kid);
+            let probe_h = K::view(kid);
+            let probe: &K::View = &*probe_h;
             let mref = self.slots[si].map.as_ref().unwrap();
-            match self.ctx.call(&nop, || mref.contains_key(&probe)) {
+            match self.ctx.call(&nop, || mref.contains_key(probe)) {
                 Out::Ok(false) => {}
                 Out::Ok(true) => vio!(self, format!("sweep/{}", self.ctx.op_kind), "contains_key({kid}) is true for a key that is not in the model"),
                 _ => vio!(self, format!("sweep/{}", self.ctx.op_kind), "contains_key({kid}) panicked"),
@@ -688,7 +691,8 @@ impl<K: KeyT, V: ValT> MapWorld<K, V> {
         }
         let m = self.slots[si].map.as_mut().unwrap();
         let probe = K::make(kid);
-        let view = K::view(kid);
+        let view_h = K::view(kid);
+        let view: &K::View = &*view_h;
         // result: (found, key serial or 0, val, val serial)
         let out = match op.k {
             Kd::Get => self.ctx.call(op, || m.get(&probe).map(|v| (0, v.val(), v.serial(), v.intact()))),
@@ -698,15 +702,15 @@ impl<K: KeyT, V: ValT> MapWorld<K, V> {
                 let mr = &*m;
                 self.ctx.call(op, || {
                     std::panic::catch_unwind(std::panic::AssertUnwindSafe(|| {
-                        let v = &mr[&view];
+                        let v = &mr[view];
                         (0, v.val(), v.serial(), v.intact())
                     }))
                     .ok()
                 })
             }
-            Kd::GetView => self.ctx.call(op, || m.get(&view).map(|v| (0, v.val(), v.serial(), v.intact()))),
+            Kd::GetView => self.ctx.call(op, || m.get(view).map(|v| (0, v.val(), v.serial(), v.intact()))),
             Kd::ContainsKey => self.ctx.call(op, || if m.contains_key(&probe) { Some((0, 0, 0, true)) } else { None }),
-            Kd::GetKeyValue => self.ctx.call(op, || m.get_key_value(&view).map(|(k, v)| (k.serial(), v.val(), v.serial(), k.intact() && v.intact()))),
+            Kd::GetKeyValue => self.ctx.call(op, || m.get_key_value(view).map(|(k, v)| (k.serial(), v.val(), v.serial(), k.intact() && v.intact()))),
             Kd::GetMut => self.ctx.call(op, || {
                 m.get_mut(&probe).map(|v| {
                     let r = (0, v.val(), v.serial(), v.intact());
@@ -715,7 +719,7 @@ impl<K: KeyT, V: ValT> MapWorld<K, V> {
                 })
             }),
             _ => self.ctx.call(op, || {
-                m.get_key_value_mut(&view).map(|(k, v)| {
+                m.get_key_value_mut(view).map(|(k, v)| {
                     let r = (k.serial(), v.val(), v.serial(), k.intact() && v.intact());
                     v.set(newv);
                     r
@@ -761,11 +765,12 @@ impl<K: KeyT, V: ValT> MapWorld<K, V> {
         let want = self.slots[si].model.get(kid);
         let m = self.slots[si].map.as_mut().unwrap();
         let probe = K::make(kid);
-        let view = K::view(kid);
+        let view_h = K::view(kid);
+        let view: &K::View = &*view_h;
         let out = match op.k {
             Kd::Remove => self.ctx.call(op, || m.remove(&probe).map(|v| (None, v))),
-            Kd::RemoveView => self.ctx.call(op, || m.remove(&view).map(|v| (None, v))),
-            _ => self.ctx.call(op, || m.remove_entry(&view).map(|(k, v)| (Some(k), v))),
+            Kd::RemoveView => self.ctx.call(op, || m.remove(view).map(|v| (None, v))),
+            _ => self.ctx.call(op, || m.remove_entry(view).map(|(k, v)| (Some(k), v))),
         };
         drop(probe);
         let Some(got) = self.settle(out, si, fc)? else { return Ok(()) };
@@ -1041,6 +1046,10 @@ impl<K: KeyT, V: ValT> MapWorld<K, V> {
         fc.multi = true;
         fc.arg_serials = toks.iter().flat_map(|t| [t.1, t.3]).collect();
         let hint = op.a;
+        let room = {
+            let m = self.map(si);
+            m.capacity() - m.len()
+        };
         let src = SimSource { items: items.into_iter(), hint: if hint < 0 { None } else { Some(hint as usize) } };
         if hint >= 0 {
             sim().probe(Probe::SerdeLyingHint);
@@ -1072,9 +1081,13 @@ impl<K: KeyT, V: ValT> MapWorld<K, V> {
         if self.ctx.last_alloc_calls > 0 {
             sim().probe(Probe::ExtendGrow);
         }
+        let allocs = self.ctx.last_alloc_calls;
         let Some(()) = self.settle(out, si, fc)? else { return Ok(()) };
         if !self.ctx.functional() {
             return Ok(());
+        }
+        if op.k == Kd::Extend && hint < 0 && toks.len() <= room && allocs > 0 {
+            vio!(self, "cap/alloc-with-room", "extend with {} pairs from an honest source into a map with capacity()-len()={room} called the allocator", toks.len());
         }
         for t in toks {
             match self.slots[si].model.pos(t.0) {
